@@ -417,7 +417,7 @@ var assertTable = map[string]assertRow{
 	"funcTranspose:vs.([]any)":                 {"the preceding loop returned an error unless every element is []any", ""},
 	"compileRegexp:r.(*regexp.Regexp)":         {"the cache only ever stores *regexp.Regexp", "syncmapstore"},
 	"cli.runInternal:v.(string)":               {"opts.JSONArgs elements are nil or string (flag parser fills them from argv)", ""},
-	"slurpRawInputIter.Next:v.(string)":        {"the wrapped rawInputIter yields only strings and errors; errors are returned on the line above", ""},
+	"slurpRawInputIter.Next:v.(string)":        {"the wrapped rawInputIter yields only strings and errors; an error is returned by a dominating `v.(error)` test", "errorfirst"},
 	"jsonStream.next:s.path[len(s.path)-1].(int)": {"in state ArrayValue the last path element is the int index pushed on '['", ""},
 }
 
@@ -492,6 +492,14 @@ func ruleC08Assert(c *Ctx, r *Rep) {
 					return true
 				}
 				seenRows[key] = true
+				if row.check == "errorfirst" {
+					if why := checkErrorFirst(c, info, fd, ta); why != "" {
+						r.Bad(key, ta.Pos(), "reviewed assertion %s relies on: %s — but the supporting fact no longer holds: %s (an unreadable file under -R -s would panic with an interface conversion instead of exiting 5)", text, row.reason, why)
+						return true
+					}
+					r.OK(key, ta.Pos(), "reviewed, supporting fact `errorfirst` re-checked: %s", row.reason)
+					return true
+				}
 				if row.check != "" {
 					if why := runCheck(row.check); why != "" {
 						r.Bad(key, ta.Pos(), "reviewed assertion %s relies on: %s — but the supporting fact no longer holds: %s", text, row.reason, why)
@@ -510,6 +518,58 @@ func ruleC08Assert(c *Ctx, r *Rep) {
 			r.Info("stale:"+k, token.NoPos, "reviewed row no longer matches any assertion")
 		}
 	}
+}
+
+// checkErrorFirst: the operand X of the unchecked assertion X.(T) was tested with `X.(error)` by an earlier statement of an
+// enclosing statement list whose body leaves the function.
+func checkErrorFirst(c *Ctx, info *types.Info, fd *ast.FuncDecl, ta *ast.TypeAssertExpr) string {
+	xid, ok := unparen(ta.X).(*ast.Ident)
+	if !ok {
+		return "the operand is not a variable"
+	}
+	obj := info.ObjectOf(xid)
+	found := false
+	walkStack(fd.Body, func(n ast.Node, stack []ast.Node) bool {
+		if n != ast.Node(ta) {
+			return true
+		}
+		for i := len(stack) - 1; i >= 0 && !found; i-- {
+			var list []ast.Stmt
+			switch b := stack[i].(type) {
+			case *ast.BlockStmt:
+				list = b.List
+			case *ast.CaseClause:
+				list = b.Body
+			default:
+				continue
+			}
+			for _, st := range list {
+				if st.End() > ta.Pos() {
+					break
+				}
+				ifs, ok := st.(*ast.IfStmt)
+				if !ok || !endsInReturn(ifs.Body) {
+					continue
+				}
+				ast.Inspect(ifs, func(q ast.Node) bool {
+					if q == ast.Node(ifs.Body) {
+						return false
+					}
+					if t2, ok := q.(*ast.TypeAssertExpr); ok && t2.Type != nil {
+						if id2, ok := unparen(t2.X).(*ast.Ident); ok && info.ObjectOf(id2) == obj && types.TypeString(info.TypeOf(t2.Type), nil) == "error" {
+							found = true
+						}
+					}
+					return true
+				})
+			}
+		}
+		return false
+	})
+	if !found {
+		return "no dominating `" + xid.Name + ".(error)` test that leaves the function precedes the assertion"
+	}
+	return ""
 }
 
 func checkFuncKeys(c *Ctx) string {
